@@ -221,6 +221,12 @@ impl Processor {
         msg
     }
 
+    /// Whether any processing element is installed.
+    #[cfg(feature = "async")]
+    pub(super) fn has_elements(&self) -> bool {
+        !self.stack.items.is_empty()
+    }
+
     pub(super) fn incoming_downstream(&mut self) {
         self.state = ProcessingState::Downstream(self.stack.items.len());
         for i in (0..self.stack.items.len()).rev() {
